@@ -211,6 +211,62 @@ def simulate(st0, carried, ind, paths, lo_f, hi_f, base_atoms, rmax, nmax, Rp, N
     return checked, None
 
 
+def slice_always_processed(prog, wr):
+    """S6: every path through the worker that returns normally executes a loop over its slice [lo, hi)
+    (paths ending in abort()/exit are exempt).  Returns None if ok, else the offending node."""
+    f, lp, var, lo_f, hi_f, argname, inclusive = wr
+
+    def is_slice_loop(n):
+        if n.get('kind') != 'ForStmt':
+            return False
+        ind = flow.induction(n)
+        if not ind:
+            return False
+        init, cond, inc, body = flow.for_parts(n)
+        i_s = strip(init)
+        if i_s.get('kind') != 'BinaryOperator':
+            return False
+        lo, hi = strip(kids(i_s)[1]), strip(ind['bound_expr'])
+        return (lo.get('kind') == 'MemberExpr' and lo.get('name') == lo_f and hi.get('kind') == 'MemberExpr' and hi.get('name') == hi_f)
+
+    bad = []
+
+    def run(n, covered):
+        """returns set of 'covered' flags with which control can fall out of n; records uncovered returns"""
+        if n is None or not n.get('kind'):
+            return {covered}
+        k = n['kind']
+        if k == 'CompoundStmt':
+            cur = {covered}
+            for x in kids(n):
+                nxt = set()
+                for c in cur:
+                    nxt |= run(x, c)
+                cur = nxt
+                if not cur:
+                    break
+            return cur
+        if k == 'IfStmt':
+            c, t, e = flow.if_parts(n)
+            return run(t, covered) | (run(e, covered) if e is not None else {covered})
+        if k == 'ReturnStmt':
+            if not covered:
+                bad.append(n)
+            return set()
+        if flow.is_noreturn_call(n):
+            return set()
+        if is_slice_loop(n):
+            return {True}
+        if k in flow.LOOPS:
+            init, cond, inc, body = flow.loop_parts(n)
+            return run(body, covered) | {covered}
+        return {covered}
+    out = run(f.body, False)
+    if False in out and not bad:
+        bad.append(f.decl)
+    return bad[0] if bad else None
+
+
 def shared_store_ownership(prog, wr):
     """S4: stores through pointers of the worker argument are indexed by the sliced variable"""
     f, lp, var, lo_f, hi_f, argname, inclusive = wr
@@ -266,6 +322,8 @@ def run(chk, prog, rmax=12, nmax=8, dom=3):
                   'processed by exactly one worker (decided on the recurrence extracted from the dispatch loop)')
     R4 = chk.rule('S4.ownership', 'every store of a worker through a pointer shared between workers is subscripted by the sliced '
                   'loop variable (or the condensed index of a pair whose first element is sliced)')
+    R6 = chk.rule('S6.slice-processed', 'every normally returning path of a worker runs the loop over its slice (no early return that '
+                  'skips the rows handed to it)')
     R5 = chk.rule('S5.condensed', 'a condensed distance vector is sized (n*n - n)/2 for the matrix it is computed from')
     RB = chk.rule('SW.worker-bounds', 'under the facts its dispatcher establishes (hi <= extent, field bindings, the dispatcher\'s own '
                   'contract) every subscript of the worker is in range')
@@ -345,6 +403,14 @@ def run(chk, prog, rmax=12, nmax=8, dom=3):
                                       '%s: %s: two workers may write the same cell' % (ent, msg)))
         else:
             chk.instance(R4, '%s: %d shared stores, all indexed by the sliced variable %s' % (ent, nst, wvar.split('#')[0]))
+        offender = slice_always_processed(prog, wr)
+        if offender is None:
+            chk.instance(R6, '%s: every returning path runs the loop over [%s, %s)' % (ent, lo_f, hi_f))
+        else:
+            chk.instance(R6, '%s: a path returns without running the loop over its slice' % ent, 'refuted')
+            chk.violation(Finding('S6.slice-processed', rel(wf.file), ent, 'early-return', wf.unit.where(offender),
+                                  '%s can return at %s without iterating over its slice [%s, %s): the rows handed to that worker are '
+                                  'processed by nobody' % (ent, wf.unit.where(offender), lo_f, hi_f)))
         # worker bounds under the dispatcher-established facts
         wpre = ck.contracts.get(ent, {}).get('pre', [])
         weng = ck.analyse(wf, wpre)
